@@ -510,6 +510,16 @@ def rule_capture(ctx, R):
         R.check(k in (1, 2) and w is not None and w == want, "optimize:capture:stack%s" % k, "captured %s text of the speculative run is appended to stack %s" % ("stdout" if k == 1 else "stderr", k), t["span"]["at"])
         src = roles.of_origin(org.of_operand(t["args"][1], bi, "t"))
         R.check("CHARS(" in src and "CAST" not in src, "optimize:capture:chars%s" % k, "captured text is converted character by character with widening conversions only", t["span"]["at"], src[:200])
+    # the state handed on is the pre-executed state plus the captured text, nothing else: inside optimize() the state
+    # is touched only by the speculative run itself and by the two appends to stacks 1 and 2
+    MUT = ("get_stack", "push_stack", "pop_stack", "set_current_stack", "set_point", "set_latest_loc", "push_code", "clear")
+    touched = []
+    st_ty = "core::state::OptState"
+    for bi, t in b.calls():
+        n = callee_name(t["f"], fb)
+        if n.rsplit("::", 1)[-1] in MUT and t["args"] and "OptState::new(" in roles.of_operand(t["args"][0], bi) and (n.startswith(S) or "OptState" in n):
+            touched.append((n.rsplit("::", 1)[-1], [roles.of_operand(a, bi) for a in t["args"][1:]], t["span"]["at"]))
+    R.check(sorted((m, a) for m, a, _ in touched) == [("get_stack", ["K1"]), ("get_stack", ["K2"])], "optimize:capture:state_untouched", "optimize() itself changes the pre-executed state only by appending the captured text to stacks 1 and 2 (no stack is cleared, dropped or rewritten on the way out): %s" % [(m, a) for m, a, _ in touched], touched[0][2] if touched else b.span)
     # RESIDUAL: the slice start is the enumerate index of the command that was given up
     for bi, t in b.calls():
         n = callee_name(t["f"], fb)
